@@ -104,6 +104,30 @@ def main():
         # all the other cases, in the opposite order) must give the same result.  Differences are appended as override records.
         n2 = int(os.environ.get("VERIF_SECOND_PASS", "250"))
         if n2 > 0 and done and not getattr(mod, "NO_SECOND_PASS", False):
+            # ... and under a different PROCESS ENVIRONMENT: the first pass runs with logging disabled and warnings ignored, the
+            # second with every logger at DEBUG (each record is formatted, so lazily built messages are built) and every warning
+            # delivered.  What the library returns must not depend on who is listening (seeding round 9: a debug trace that
+            # consumed the splitter's next mark).
+            if os.environ.get("VERIF_NOISY_SECOND_PASS", "1") == "1":
+                logging.disable(logging.NOTSET)
+                logging.raiseExceptions = False
+
+                class _Listener(logging.Handler):
+                    def emit(self, record):
+                        try:
+                            self.format(record)
+                        except Exception:  # noqa: BLE001 - a message that cannot be formatted is not the library's result
+                            pass
+                lst = _Listener(level=logging.DEBUG)
+                for name in (None, "bibtexparser"):
+                    lg = logging.getLogger(name)
+                    lg.setLevel(logging.DEBUG)
+                    lg.addHandler(lst)
+                for name in list(logging.root.manager.loggerDict):
+                    if name.startswith("bibtexparser"):
+                        logging.getLogger(name).setLevel(logging.DEBUG)
+                warnings.simplefilter("always")
+                warnings.showwarning = lambda *a, **k: None
             step = max(1, len(done) // n2)
             for c, out1, ok1 in reversed(done[::step][:n2]):
                 try:
